@@ -263,7 +263,7 @@ Class(c) == CASE c.t = "nodeid" -> "nodeid-" \o c.nid.id.k
               [] c.t = "expanded" -> "expanded-" \o (IF c.xid.uri.some THEN "nsu" ELSE IF c.xid.ns = 0 THEN "ns0" ELSE "ns") \o "-" \o c.xid.id.k
               [] c.t = "guid" -> "guid" [] c.t = "range" -> "range"
               [] c.t = "datetime" -> "datetime-" \o c.form
-              [] c.t = "path" -> "path" [] c.t = "parse" -> "parse"
+              [] c.t = "path" -> (IF PathPrintable(c.path) THEN "path" ELSE "path-unnamed-reftype") [] c.t = "parse" -> "parse"
 
 -----------------------------------------------------------------------------
 (* L2: the properties, on what the real code returned.                       *)
